@@ -46,6 +46,28 @@ def centers_contract():
                 lf = pykoop.KernelApproxLiftingFn(pykoop.RandomFourierKernelApprox(n_components=nc, method=m, random_state=0)).fit(X)
                 if lf.transform(X).shape[1] != lf.n_features_out_:
                     bad.append(dict(what='kernel lifting width differs from declared', method=m, n_components=nc))
+    # kernel approximations of scikit-learn are accepted too (documented fallback without n_features_out_)
+    import sklearn.kernel_approximation as ska
+    for mk in (lambda: ska.Nystroem(n_components=100, random_state=0), lambda: ska.Nystroem(n_components=3, random_state=0),
+               lambda: ska.RBFSampler(n_components=5, random_state=0), lambda: ska.AdditiveChi2Sampler(sample_steps=2),
+               lambda: ska.SkewedChi2Sampler(n_components=4, random_state=0),
+               lambda: ska.PolynomialCountSketch(n_components=6, random_state=0)):
+        for nu_k in (0, 1):
+            n += 1
+            X = np.abs(rng.normal(size=(7, 3))) + 0.1
+            try:
+                lf = pykoop.KernelApproxLiftingFn(mk()).fit(X, n_inputs=nu_k)
+                Xt = lf.transform(X)
+                names = lf.get_feature_names_out()
+            except Exception as e:  # noqa
+                bad.append(dict(what=f'kernel lifting with a scikit-learn approximation raised {type(e).__name__}: {e}',
+                                estimator=repr(mk())))
+                continue
+            if Xt.shape[1] != lf.n_features_out_ or len(names) != Xt.shape[1] \
+                    or lf.n_states_out_ + lf.n_inputs_out_ != Xt.shape[1]:
+                bad.append(dict(what='kernel lifting width differs from declared (scikit-learn kernel approximation)',
+                                estimator=repr(mk()), produced=int(Xt.shape[1]), declared=int(lf.n_features_out_),
+                                n_names=int(len(names))))
     for nc in (1, 4):
         n += 1
         X = rng.normal(size=(8, 2))
